@@ -39,7 +39,25 @@ class HierarchyFilter(Filter):
 
     @property
     def parent_changed(self):
-        return hashobj(self._parent_rtdc_ds.filter.all) != self._parent_hash
+        return self._get_parent_hash() != self._parent_hash
+
+    def _get_parent_hash(self):
+        """Hash of the filters of the parent and all of its ancestors
+
+        The events of the parent (and with them the meaning of the
+        indices in `self.manual`) do not only change when the filter
+        of the parent changes, but also when the filter of any of
+        its ancestors changes.
+        """
+        hashes = []
+        ds = self._parent_rtdc_ds
+        while True:
+            hashes.append(hashobj(ds.filter.all))
+            if ds.format == "hierarchy":
+                ds = ds.hparent
+            else:
+                break
+        return hashobj(hashes)
 
     def apply_manual_indices(self, rtdc_ds, manual_indices):
         """Write to `self.manual`
@@ -137,4 +155,4 @@ class HierarchyFilter(Filter):
         # hold reference to rtdc_ds parent
         # (not to its filter, because that is reinstantiated)
         self._parent_rtdc_ds = parent_rtdc_ds
-        self._parent_hash = hashobj(self._parent_rtdc_ds.filter.all)
+        self._parent_hash = self._get_parent_hash()
